@@ -174,20 +174,29 @@ def check_search_cases(ctx, cases, tmp, stats):
             continue
         # independence of strategy / fragmentation / capacity: same (mode, label, input) => same searched bytes
         key = (c["mode"], c["label"], c["input"])
-        fragile = truncated or K_LEAD in cls or (c["mode"] == 1 and c["label"] == 4 and reference.endswith(b"\xef\xbf\xbd"))
-        # legacy multi-byte label: whether a dangling lead byte at EOF yields its U+FFFD depends on the call sequence
-        # (LegacyDanglingLeadAtEofDropped), so such inputs are compared modulo one trailing U+FFFD
-        norm = searched
-        if c["mode"] == 1 and c["label"] == 4 and norm.endswith(b"\xef\xbf\xbd"):
-            norm = norm[:-3]
-        if fragile:
-            pass
-        elif key in groups and groups[key][0] != norm:
-            ctx.violation("searched bytes depend on strategy / fragmentation / capacity",
-                          dict(kind=1702, case=repr(c), other=repr(groups[key][1]), searched=repr(searched),
-                               other_searched=repr(groups[key][0])))
-        if not fragile:
-            groups.setdefault(key, (norm, c))
+        # Two searches of the same input may differ only by the two third-party EOF defects: the last character's
+        # tail cut (final decoder output does not fit the < 4 free bytes of the destination: roll-buffer capacity
+        # below the default, or read_to_end in multi-line mode) and, under a legacy multi-byte label, the U+FFFD of a
+        # lead byte pending at EOF dropped or kept depending on the call sequence.  Both remove bytes of the LAST
+        # character only, so: one result is a prefix of the other and the missing part lies inside that character.
+        if key in groups and groups[key][0] != searched:
+            other_s, other_c = groups[key]
+            short, long_ = sorted((searched, other_s), key=len)
+            k = len(long_) - 1
+            while k > 0 and (long_[k] & 0xC0) == 0x80:
+                k -= 1                                   # start of the last character of the longer result
+            tiny = any(x["capacity"] < 65536 or x["strategy"] >= 4 for x in (c, other_c))
+            legacy = c["mode"] == 1 and c["label"] == 4
+            tail_only = long_.startswith(short) and len(short) >= k and len(long_) - len(short) <= 3
+            if tail_only and (tiny or (legacy and long_[k:] == b"\xef\xbf\xbd" and len(short) == k)):
+                ctx.known(K_LEAD if (legacy and long_[k:k + 1] == b"\xef") else K_TRUNC,
+                          "same input, two strategies: %r vs %r (input %r)" % (searched[-8:], other_s[-8:], c["input"][:40]))
+                stats["known_cross_strategy_tail"] += 1
+            else:
+                ctx.violation("searched bytes depend on strategy / fragmentation / capacity",
+                              dict(kind=1702, case=repr(c), other=repr(other_c), searched=repr(searched),
+                                   other_searched=repr(other_s)))
+        groups.setdefault(key, (searched, c))
         # link 2: the model's searched bytes (UTF-16 / identity cases)
         if mv is None:
             ctx.violation("model failed: " + mout[:60], dict(kind=1703, case=repr(c)), nfi=True)
